@@ -11,10 +11,12 @@ package activejobstore
 //@ pure keyOf(rj *execution.Job) string = rj.Labels[jobconfig.LabelKeyJobConfigUID]
 
 //@ func Store.getKey
+//@   params s, rj
 //@   requires rj != nil
 //@   ensures [C05] result1 == hasKey(rj) && result0 == keyOf(rj)
 
 //@ func Store.increment
+//@   params s, key
 //@   tags C05
 //@   requires stwf(s)
 //@   modifies smHas, smVal, heap(utilatomic.counterNode)
@@ -22,6 +24,7 @@ package activejobstore
 //@   ensures [C05] view: forall k string :: active(s, k) == (k == key ? old(active(s, k)) + 1 : old(active(s, k)))
 
 //@ func Store.decrement
+//@   params s, key
 //@   tags C05
 //@   requires stwf(s)
 //@   modifies smHas, smVal, heap(utilatomic.counterNode)
@@ -29,11 +32,13 @@ package activejobstore
 //@   ensures [C05] view: forall k string :: active(s, k) == (k == key ? old(active(s, k)) - 1 : old(active(s, k)))
 
 //@ func Store.CountActiveJobsForConfig
+//@   params s, rjc
 //@   tags C05
 //@   requires stwf(s) && rjc != nil
 //@   ensures [C05,C06] result == active(s, string(rjc.UID))
 
 //@ func Store.CheckAndAdd
+//@   params s, rjc, oldCount
 //@   tags C05
 //@   requires stwf(s) && rjc != nil
 //@   modifies smHas, smVal, heap(utilatomic.counterNode)
@@ -42,6 +47,7 @@ package activejobstore
 //@   ensures [C05] view: forall k string :: active(s, k) == ((k == string(rjc.UID) && result) ? old(active(s, k)) + 1 : old(active(s, k)))
 
 //@ func Store.Delete
+//@   params s, rjc
 //@   tags C05
 //@   requires stwf(s) && rjc != nil
 //@   modifies smHas, smVal, heap(utilatomic.counterNode)
@@ -55,6 +61,7 @@ package activejobstore
 //@     : ((!job.IsActive(oldRj) && job.IsActive(newRj) && !(!job.IsStarted(oldRj) && job.IsStarted(newRj))) ? 1 : 0)
 
 //@ func Store.OnUpdate
+//@   params s, oldRj, newRj
 //@   tags C05
 //@   requires stwf(s) && oldRj != nil && newRj != nil
 //@   modifies smHas, smVal, heap(utilatomic.counterNode)
@@ -63,6 +70,7 @@ package activejobstore
 //@   ensures [C05] event-delta: hasKey(oldRj) ==> (forall k string :: active(s, k) == (k == keyOf(oldRj) ? old(active(s, k)) + delta(oldRj, newRj) : old(active(s, k))))
 
 //@ func Store.OnDelete
+//@   params s, rj
 //@   tags C05
 //@   requires stwf(s) && rj != nil
 //@   modifies smHas, smVal, heap(utilatomic.counterNode)
@@ -81,6 +89,7 @@ package activejobstore
 //@ pure cntAct(n int, k string) Int = n <= 0 ? 0 : cntAct(n - 1, k) + ((hasKey(allJobsCachedAt(n - 1)) && keyOf(allJobsCachedAt(n - 1)) == k && job.IsActive(allJobsCachedAt(n - 1))) ? 1 : 0)
 
 //@ func Store.Recover
+//@   params s, ctx
 //@   tags C05
 //@   requires stwf(s)
 //@   modifies smHas, smVal, heap(utilatomic.counterNode), s.recovered
